@@ -273,6 +273,8 @@ func (proxy *PgProxy) ProxyClientConnection(ctx context.Context, errCh chan<- ba
 	// default value empty func to avoid != nil check
 	var spanEndFunc = func() {}
 	var timerObserveFunc = func() time.Duration { return 0 }
+	// true after blocked Parse packet until the next Sync packet
+	skipUntilSync := false
 	for {
 		timerObserveFunc()
 		packet.Reset()
@@ -288,6 +290,13 @@ func (proxy *PgProxy) ProxyClientConnection(ctx context.Context, errCh chan<- ba
 			logger.WithError(err).Debugln("Can't read packet from client to database")
 			errCh <- base.NewClientProxyError(err)
 			return
+		}
+		if skipUntilSync {
+			if packet.messageType[0] == 'S' {
+				skipUntilSync = false
+			}
+			logger.Debugln("Skip packet that follows blocked Parse packet")
+			continue
 		}
 		timer := prometheus.NewTimer(prometheus.ObserverFunc(base.RequestProcessingTimeHistogram.WithLabelValues(prometheusLabels...).Observe))
 		timerObserveFunc = timer.ObserveDuration
@@ -316,6 +325,10 @@ func (proxy *PgProxy) ProxyClientConnection(ctx context.Context, errCh chan<- ba
 				errCh <- base.NewClientProxyError(err)
 				return
 			}
+			// Parse packet of extended query protocol was blocked: like the database does after an error,
+			// discard the rest of the messages (Bind, Describe, Execute, ...) up to the Sync. They refer to
+			// the statement that the database has not received.
+			skipUntilSync = packet.IsParse()
 			continue
 		}
 
